@@ -288,6 +288,59 @@ class CFG:
 # facts established by a branch edge
 # ----------------------------------------------------------------------------
 
+INT_ATTRS = set()          # attribute names that only ever hold integers (filled by core.Repo from the package's stores)
+
+
+def _int_like(e):
+    """expression that evaluates to a Python / numpy integer whatever the inputs (so int(e) == e)"""
+    if isinstance(e, ast.Constant):
+        return isinstance(e.value, int) and not isinstance(e.value, bool)
+    if isinstance(e, ast.Call):
+        nm = e.func.id if isinstance(e.func, ast.Name) else (e.func.attr if isinstance(e.func, ast.Attribute) else None)
+        if nm in ("len", "int", "__idx__") or (nm in ("index", "count", "argmax", "argmin") and isinstance(e.func, ast.Attribute)):
+            return True
+        if nm == "__elem__" and e.args and isinstance(e.args[0], ast.Call) and isinstance(e.args[0].func, ast.Name) and e.args[0].func.id == "range":
+            return all(_int_like(a) for a in e.args[0].args)
+        if nm == "pop" and isinstance(e.func, ast.Attribute) and not e.args:
+            v = e.func.value
+            while isinstance(v, ast.Call) and isinstance(v.func, ast.Name) and v.func.id in ("set", "list", "sorted", "tuple") and len(v.args) == 1:
+                v = v.args[0]
+            return isinstance(v, (ast.SetComp, ast.ListComp, ast.GeneratorExp)) and _int_like(v.elt)
+        if nm in ("min", "max") and e.args and not e.keywords:
+            return all(_int_like(a) for a in e.args)
+        return False
+    if isinstance(e, ast.Subscript) and isinstance(e.value, ast.Attribute) and e.value.attr == "shape":
+        return True
+    if isinstance(e, ast.Attribute):
+        return e.attr in INT_ATTRS
+    if isinstance(e, ast.BinOp) and isinstance(e.op, (ast.Add, ast.Sub, ast.Mult, ast.FloorDiv, ast.Mod)):
+        return _int_like(e.left) and _int_like(e.right)
+    if isinstance(e, ast.UnaryOp) and isinstance(e.op, (ast.USub, ast.UAdd)):
+        return _int_like(e.operand)
+    return False
+
+
+def _number_like(e):
+    """expression that evaluates to a number (so float(e) has the same value; it is not a text being parsed)"""
+    if isinstance(e, ast.Constant):
+        return isinstance(e.value, (int, float)) and not isinstance(e.value, bool)
+    if _int_like(e):
+        return True
+    if isinstance(e, ast.BinOp) and isinstance(e.op, (ast.Sub, ast.Mult, ast.Div, ast.FloorDiv, ast.Pow)):
+        return True
+    if isinstance(e, ast.BinOp) and isinstance(e.op, ast.Add):
+        return _number_like(e.left) or _number_like(e.right)
+    if isinstance(e, ast.Call):
+        nm = e.func.id if isinstance(e.func, ast.Name) else (e.func.attr if isinstance(e.func, ast.Attribute) else None)
+        if nm in ("min", "max") and not e.keywords:
+            args = e.args[0].elts if len(e.args) == 1 and isinstance(e.args[0], (ast.List, ast.Tuple)) else e.args
+            return bool(args) and any(_number_like(a) for a in args)
+        return nm in ("abs", "float", "round", "sum", "clip", "minimum", "maximum", "floor", "ceil", "sqrt", "exp", "log", "hypot", "norm", "dot", "remaining_amp_periods")
+    if isinstance(e, ast.UnaryOp) and isinstance(e.op, (ast.USub, ast.UAdd)):
+        return _number_like(e.operand)
+    return False
+
+
 def edge_facts(expr, truth):
     """atoms (ast, bool) that are known on the `truth` edge of test `expr`."""
     out = []
@@ -521,6 +574,10 @@ class Flow:
                 n = self.generic_visit(n)
                 if any(isinstance(a, ast.Starred) for a in n.args):
                     n.args = self._splice(n.args)
+                # int(E) of a value that is an integer already, float(E) of a value that is a number already: the value itself
+                if isinstance(n.func, ast.Name) and n.func.id in ("int", "float") and len(n.args) == 1 and not n.keywords:
+                    if (n.func.id == "int" and _int_like(n.args[0])) or (n.func.id == "float" and _number_like(n.args[0])):
+                        return n.args[0]
                 return n
 
             def visit_List(self, n):
@@ -538,8 +595,35 @@ class Flow:
                     return ast.copy_location(type(n.left)(elts=list(n.left.elts) + list(n.right.elts), ctx=ast.Load()), n)
                 return n
 
+            def visit_Compare(self, n):
+                n = self.generic_visit(n)
+                # `x in list(S)` / `x not in tuple(S)` is `x in S` (a copy holds the same members)
+                for i, (op, c) in enumerate(zip(n.ops, n.comparators)):
+                    if isinstance(op, (ast.In, ast.NotIn)):
+                        while isinstance(c, ast.Call) and isinstance(c.func, ast.Name) and c.func.id in ("list", "tuple", "set", "frozenset") and len(c.args) == 1 and not c.keywords \
+                                and not isinstance(c.args[0], (ast.GeneratorExp,)):
+                            c = c.args[0]
+                        n.comparators[i] = c
+                return n
+
             def visit_Subscript(self, n):
                 n = self.generic_visit(n)
+                # list(S)[i] of a sequence-valued accessor is S[i] (a copy holds the same elements at the same positions)
+                if isinstance(n.ctx, ast.Load) and isinstance(n.value, ast.Call) and isinstance(n.value.func, ast.Name) and n.value.func.id in ("list", "tuple") \
+                        and len(n.value.args) == 1 and not n.value.keywords and isinstance(n.value.args[0], ast.Attribute) \
+                        and n.value.args[0].attr in ("station_ids", "constraint_index", "allowable_pilots"):
+                    n.value = n.value.args[0]
+                # list((a, b)) / tuple([a, b]) of a literal sequence is that sequence
+                while isinstance(n.value, ast.Call) and isinstance(n.value.func, ast.Name) and n.value.func.id in ("list", "tuple") and len(n.value.args) == 1 \
+                        and not n.value.keywords and isinstance(n.value.args[0], (ast.List, ast.Tuple)):
+                    n.value = n.value.args[0]
+                # (a, b, c)[1:] -> (b, c)
+                if isinstance(n.ctx, ast.Load) and isinstance(n.value, (ast.List, ast.Tuple)) and isinstance(n.slice, ast.Slice) and n.slice.step is None \
+                        and all(b is None or (isinstance(b, ast.Constant) and isinstance(b.value, int)) for b in (n.slice.lower, n.slice.upper)) \
+                        and not any(isinstance(x, ast.Starred) for x in n.value.elts):
+                    lo = n.slice.lower.value if n.slice.lower is not None else None
+                    hi = n.slice.upper.value if n.slice.upper is not None else None
+                    return ast.copy_location(type(n.value)(elts=list(n.value.elts)[lo:hi], ctx=ast.Load()), n)
                 # [a, b][0] -> a   (a literal sequence indexed by a literal position)
                 if isinstance(n.ctx, ast.Load) and isinstance(n.value, (ast.List, ast.Tuple)) and isinstance(n.slice, ast.Constant) and isinstance(n.slice.value, int) \
                         and not isinstance(n.slice.value, bool) and -len(n.value.elts) <= n.slice.value < len(n.value.elts) \
